@@ -556,6 +556,12 @@ class Interp:
         if k == "const":
             if "fn" in o:
                 return Val(frozenset([(("fnitem", o["fn"], o["text"]), NOOPS)]))
+            if "def" in o and "promoted" in o:
+                pb = self.F.get("%s::promoted[%s]" % (o["def"], o["promoted"]))
+                if pb is not None and len(frame.ctx) < MAX_DEPTH:
+                    rv, _ = self.call_body(pb, frame.ctx, [], dict(store), (frame.body.id, -7, int(o["promoted"])))
+                    if rv is not None:
+                        return rv
             if "def" in o and "promoted" not in o:
                 d = o["def"]
                 lit = self.F.const_literal(d)
